@@ -144,7 +144,7 @@ class C19(PropCheck):
         entries = list(summ)
         pos = 0
 
-        def eat_ctx(c, parent):
+        def eat_ctx(c, parent, top=True):
             nonlocal pos
             if c.hide and not hid:
                 return
@@ -155,12 +155,15 @@ class C19(PropCheck):
             want_line = c.start_line or parent.lineno
             if fs.lineno != want_line or fs.filename != parent.filename or not fs.name.startswith(parent.funcname):
                 self._probs.append(f"context entry {fs.filename}:{fs.lineno} {fs.name} is not at the with-line {want_line} of {parent.funcname}")
+            if top and c.obj is not None and f": {type(c.obj).__name__})" not in fs.name:
+                # the entry names the manager's type: what type() says, whatever the object claims to be
+                self._probs.append(f"context entry '{fs.name}' does not name the manager's type {type(c.obj).__name__}")
             pos += 1
             if c.inner_stack is not None:
                 eat_stack(c.inner_stack)
             for ch in c.children:
                 if isinstance(ch, stackscope.Context):
-                    eat_ctx(ch, parent)
+                    eat_ctx(ch, parent, top=False)
 
         def eat_stack(st):
             nonlocal pos
